@@ -195,7 +195,8 @@ func checkC03(w *Worker) {
 					// every second food is a recipe built on the previous one (taken once, listed first)
 					r.Ings = []absIng{{universe[i-1], 1}, {"fat", 1}}
 				}
-				if i != len(universe)-1 {
+				// foods 4 and 10 (and the last one) are in the book but hold no X at all: they must not appear under -s X
+				if i != len(universe)-1 && i != 4 && i != 10 {
 					r.Ings = append(r.Ings, absIng{"X", c03Coef[i%len(c03Coef)]})
 				}
 				book = append(book, r)
